@@ -165,9 +165,14 @@ def arm_regions(fn, place, all_variants):
     return regions, d
 
 
+# helper functions of the tree builder that the rules look for by name; every other crate-private function of `tree::` called by the
+# builder is inlined before a structural rule looks at it, so that splitting the long function into helpers changes nothing
+TREE_KEEP = ('insert_back_prioritized', 'collapse_root_stack_to', 'collapse_all_sequences', 'root_node', 'new', 'has_enough_children', 'has_too_many_children', 'operator', 'children')
+
+
 def token_to_operator(prog):
     """tokens_to_operator_tree: {token_variant_name: sorted list of operator constructors used in its arm}"""
-    f = prog.fn('tree::tokens_to_operator_tree')
+    f = prog.fn_inlined('tree::tokens_to_operator_tree', keep=TREE_KEEP, module='tree::')
     if f is None:
         raise TableError('tree::tokens_to_operator_tree not found')
     tnames = prog.variants(TOKEN)
@@ -201,3 +206,88 @@ def token_to_operator(prog):
                         ops.add(vn)
         out[tnames[v]] = dict(operators=sorted(ops), values=sorted(vals), blocks=sorted(blocks))
     return out, f, place, dsp
+
+
+# ----------------------------------------------------------------------------- token -> operator, semantically
+
+_TOKSEM = {}
+
+
+def token_semantics(prog):
+    """What tokens_to_operator_tree does with a token, obtained by interpreting it on short concrete token lists and observing the
+    node handed to insert_back_prioritized (the builder functions themselves are kept abstract). Independent of how the function is
+    written (one long match, helpers, tokens by value or by reference, peekable or indexed look-ahead).
+      first[V]        operators inserted for V as the first token                      (set of abstract Operator values)
+      after_value[V]  operators inserted for V when it follows an integer literal
+      ident_next[N]   operator inserted for an identifier followed by token N  (key None: identifier at the end)
+      minus_after[K]  operator kinds inserted for `-` following token K"""
+    key = id(prog)
+    if key in _TOKSEM:
+        return _TOKSEM[key]
+    from absint import Interp, SYM, ADT, OK, Budget, is_adt
+    from rules.treepaths import opaque_hook
+    f = prog.fn('tree::tokens_to_operator_tree')
+    if f is None:
+        raise TableError('tree::tokens_to_operator_tree not found')
+    tok = prog.adt(TOKEN)
+
+    def T(name, sym):
+        v = [x for x in tok['variants'] if x['name'] == name][0]
+        return ADT(tok['path'], v['idx'], name, [SYM(sym)] if v['fields'] else [])
+
+    def extra(it, fn, t, args):
+        c = t['callee']
+        if c.get('local') and c['name'] in ('insert_back_prioritized', 'collapse_all_sequences'):
+            return OK(('tuple', ()))
+        if c.get('local') and c['name'] == 'collapse_root_stack_to':
+            return OK(SYM('collapsed'))
+        return None
+
+    def inserted(tokens):
+        try:
+            ps = Interp(prog, hook=opaque_hook(extra=extra), max_steps=400000).paths(f, [('tuple', tuple(tokens))])
+        except Budget:
+            raise TableError('tokens_to_operator_tree too complex to interpret on %d tokens' % len(tokens))
+        out = []
+        for ret, eff in ps:
+            seq = []
+            for e in eff:
+                if not e[0].startswith('<') and e[0].split('::')[-1] == 'insert_back_prioritized' and len(e[2]) >= 2:
+                    n = e[2][1]
+                    if n[0] == 'app' and n[1].split('::')[-1] == 'new' and len(n[2]) == 1 and is_adt(n[2][0], 'operator::Operator'):
+                        seq.append(n[2][0])
+            out.append(seq)
+        return out
+    names = [v['name'] for v in tok['variants']]
+    first = {}
+    for V in names:
+        first[V] = {s_[0] for s_ in inserted([T(V, 'p')]) if len(s_) == 1}
+
+    def second(A, a_first, B):
+        a_first = {s_[0] for s_ in inserted([A]) if len(s_) == 1} if a_first is None else a_first
+        got = set()
+        for s_ in inserted([A, B]):
+            if len(s_) == 2:
+                got.add(s_[1])
+            elif len(s_) == 1 and s_[0] not in a_first:
+                got.add(s_[0])
+        return got
+    lit = T('Int', 'n')
+    after_value = {V: second(lit, None, T(V, 'p')) for V in names}
+    ident_kinds = ('VariableIdentifierRead', 'VariableIdentifierWrite', 'FunctionIdentifier')
+    ident_next = {None: set(first['Identifier'])}
+    for N in names:
+        got = set()
+        for s_ in inserted([T('Identifier', 'p'), T(N, 'q')]):
+            if s_ and s_[0][3] in ident_kinds and s_[0][4] == (SYM('p'),):
+                got.add(s_[0])
+            elif s_ and len(s_) == 2:
+                got.add(s_[0])
+        ident_next[N] = got
+    minus_after = {}
+    for K in names:
+        a_first = None if K != 'Identifier' else {ADT(x[1], x[2], x[3], [SYM('k')]) for x in ident_next['Minus']}
+        minus_after[K] = {o[3] for o in second(T(K, 'k'), a_first, T('Minus', 'm'))}
+    res = dict(first=first, after_value=after_value, ident_next=ident_next, minus_after=minus_after, fn=f)
+    _TOKSEM[key] = res
+    return res
